@@ -621,6 +621,10 @@ struct Spec {
     reuse: u8,
     /// 1: the join is evaluated as an argument of `eprint!` (under the stderr print lock)
     join_in_print: u8,
+    /// 1 (with disp 1 and a rendezvous): the handle is dropped at once, while the thread still runs its closure, and
+    /// the main thread then waits until the k-th stalled free of the thread's epilogue has begun before it goes on
+    /// to the next spawn (instead of dropping the handle at that moment)
+    drop_first: u8,
 }
 const SPEC_BYTES: usize = 32;
 
@@ -641,6 +645,7 @@ impl Spec {
             stall_k: b[28],
             reuse: b[29],
             join_in_print: b[30],
+            drop_first: b[31],
         }
     }
 }
@@ -1193,7 +1198,7 @@ pub fn main() -> i32 {
         if n == 0 || n > MAXN || len < 4 + n * SPEC_BYTES {
             return 7;
         }
-        let mut specs = [Spec { ty: 0, behave: 0, disp: 0, inline: 0, cdk: 0, pdk: 0, buflen: 0, cda: 0, pda: 0, tag: 0, stall_ns: 0, stall_k: 0, reuse: 0, join_in_print: 0 }; MAXN];
+        let mut specs = [Spec { ty: 0, behave: 0, disp: 0, inline: 0, cdk: 0, pdk: 0, buflen: 0, cda: 0, pda: 0, tag: 0, stall_ns: 0, stall_k: 0, reuse: 0, join_in_print: 0, drop_first: 0 }; MAXN];
         for i in 0..n {
             specs[i] = Spec::parse(&inbuf[4 + i * SPEC_BYTES..4 + (i + 1) * SPEC_BYTES]);
         }
@@ -1241,6 +1246,10 @@ fn run_batch(specs: &[Spec], pipe: (usize, usize)) {
 
     let mut finish = |i: usize, handles: &mut [Option<H>; MAXN], ps: &mut [PerSpec; MAXN], join: bool| {
         if let Some(h) = handles[i].take() {
+            let mut h = Some(h);
+            if specs[i].drop_first != 0 && !join {
+                drop(h.take());
+            }
             // rendezvous with the thread's epilogue: wait (bounded) until its k-th stalled free has begun
             let k = specs[i].stall_k as u32;
             if k > 0 && specs[i].stall_ns > 0 {
@@ -1258,12 +1267,12 @@ fn run_batch(specs: &[Spec], pipe: (usize, usize)) {
                     // `eprint!("{}", handle.join())`: the argument is evaluated after the macro took the print lock
                     let mut r = (0u8, 0u64, 0u32);
                     tiny_std::eprint!("{}", {
-                        r = join_h(h);
+                        r = join_h(h.take().unwrap());
                         ""
                     });
                     r
                 } else {
-                    join_h(h)
+                    join_h(h.take().unwrap())
                 };
                 if STALL_NOW[i].load(SeqCst) == 1 {
                     ps[i].stall_obs |= 2; // join came back while the thread still sleeps in its epilogue
